@@ -2,12 +2,12 @@
 from .. import common as C
 
 ID = "C07"
-MODULES = ["Helios.Props.Code", "Helios.Props.C07"]
+MODULES = ["Helios.Props.CodeCB", "Helios.Props.C07"]
 THEOREMS = [
     "Helios.CB.trips", "Helios.CB.blocks_while_open", "Helios.CB.halfopen_budget",
     "Helios.CB.closes_only_after_trial_successes", "Helios.CB.reopens_on_trial_failure",
     "Helios.CB.stale_completion_ignored",
-    "Helios.CodeTie.beforeRequest_refines", "Helios.CodeTie.afterRequest_refines", "Helios.CodeTie.translation_clean",
+    "Helios.CodeTie.beforeRequest_refines", "Helios.CodeTie.afterRequest_refines", "Helios.CodeTie.translation_clean_cb",
 ]
 DEF_NS = 60 * 10**9
 
@@ -178,6 +178,9 @@ def trip_episodes():
     for fault in ("s500", "i503", "refuse", "garbage"):
         for strat in ("round_robin", "least_connections"):
             eps.append(["ft new %s 1 0 0 0" % strat] + ["ft req " + fault] * 3 + ["ft req ok", "ft close"])
+    # ... also when the next request offers a protocol upgrade: the open breaker refuses it like any other
+    eps.append(["ft new round_robin 1 0 0 0"] + ["ft req s500"] * 3 + ["ft req upg", "ft close"])
+    eps.append(["ft new ip_hash 1 0 0 0"] + ["ft req refuse"] * 3 + ["ft req upg", "ft close"])
     return eps
 
 
@@ -188,7 +191,7 @@ def trip_oracle(ep, outs):
         if l.startswith("ft req"):
             d = dict(t.split("=", 1) for t in o.split(" || ", 1)[-1].split() if "=" in t)
             hits.append((l, d.get("class"), int(d.get("hits", "-1")), int(d.get("at", "0")), int(d.get("ms", "0"))))
-    if len(hits) < 4 or len(set(h[0] for h in hits[:3])) != 1 or not hits[3][0].endswith(" ok"):
+    if len(hits) < 4 or len(set(h[0] for h in hits[:3])) != 1 or not hits[3][0].endswith((" ok", " upg")):
         return []           # (a shrunk episode)
     fails = []
     (l3, c3, h3, at3, _), (l4, c4, h4, at4, ms4) = hits[2], hits[3]
